@@ -5,7 +5,7 @@ For every kept seed: apply its patch to the worker's worktree, run the quick che
 usage: seed_matrix_par.py [-j N] [seed ids...]"""
 import json, os, shutil, subprocess, sys, time, threading, queue
 ROOT = '/verif'
-BASE = '/tmp/mw'
+BASE = '/tmp/mw_seed_%d' % os.getpid()
 args = sys.argv[1:]
 J = 5
 if args and args[0] == '-j':
